@@ -333,8 +333,9 @@ func (v *variablesVisitor) traverseFieldDefinitionType(fieldTypeDefinitionNodeKi
 				return
 			}
 
-			// An undefined required input field is valid if it has a default value
-			if v.definition.InputValueDefinitionHasDefaultValue(inputFieldRef) {
+			// An undefined required input field is valid if it has a default value;
+			// an explicit null (for the field or for an element of its list value) is not
+			if jsonValue == nil && v.definition.InputValueDefinitionHasDefaultValue(inputFieldRef) {
 				return
 			}
 			v.renderVariableRequiredNotProvidedError(fieldName, typeRef)
